@@ -217,6 +217,8 @@ def run(chk):
                  generator="62% compatible pairs, 28% one dimension emptied (version, suite, authentication mode, curve, "
                            "signature scheme, EMS, SRTP, ALPN, key type), 10% independent draws; quick tier adds a seeded "
                            "sample of the 2^14 lattice, thorough the whole lattice")
+    if names_policy_leg(chk):
+        found_input = True
     if not proved and not found_input:
         where, pout = getattr(chk, "proof_error", ("?", ""))
         chk.broken("proof obligation Properties/C11.v no longer checks (%s)" % where, pout)
@@ -246,6 +248,63 @@ def run(chk):
                      "VerifyPeerCertificate/VerifyConnection callbacks are not varied",
                      "DTLS 1.3: signature scheme of the encrypted CertificateVerify is not observable on the wire "
                      "(compared for DTLS 1.2 only)"])
+
+
+NAMES_POLICY_SITE = ("ALPN selection: pkg/protocol/extension/alpn.go ALPNProtocolSelection, flight12 flight4Generate / "
+                     "flight4bGenerate (server), flight3Parse (client)")
+
+
+def names_policy_leg(chk):
+    """round g: the negotiated ALPN protocol must be, BYTE FOR BYTE, an entry of both configured lists.  Runs the
+    differently-spelled-lists harness of C01 (TestVerifC01Names: lists whose entries are equal up to letter case,
+    Unicode folding / form, surrounding bytes, prefixes) and applies C11's own predicate to every side that
+    reports success."""
+    out = vlib.out_path("c11names")
+    rc, o = vlib.go_test(".", "^TestVerifC01Names$", {"VERIF_SEED": chk.seed, "VERIF_TIER": chk.tier, "VERIF_OUT": out},
+                         tags=["c11", "c01"], timeout=3000)
+    cases = vlib.read_jsonl(out)
+    vlib.cleanup(out)
+    if rc != 0 and vlib.classify_go_failure(o) != "panic":
+        chk.broken("correspondence harness TestVerifC01Names (names-policy leg) no longer runs against /repo", o)
+        return False
+    found = False
+    judged, near = 0, []
+    for c in cases:
+        if not c11lib.both_built(c):
+            continue
+        lc, ls = c["names_c"] or [], c["names_s"] or []
+        for side in ("client", "server"):
+            r = c[side]
+            if r["class"] != "ok" or not r.get("alpn"):
+                continue
+            judged += 1
+            name = r["alpn"]
+            inc, ins = name in lc, name in ls
+            if inc and ins:
+                continue
+            if not found:
+                found = True
+                chk.finding(NAMES_POLICY_SITE, {"monitor": "alpn-outside-policy", "leg": "names"},
+                            "the %s completed with application protocol %r (bytes %s) which is not, byte for byte, an entry of %s "
+                            "(client list %r, server list %r) [gen %s, mask %s, %s handshake]" % (
+                                side, name, name.encode("utf-8").hex(),
+                                "either list" if not inc and not ins else ("the client's list" if not inc else "the server's list"),
+                                lc, ls, c["gen"], c["mask"], "resumed" if c["resume"] else "full"),
+                            {"how": "TestVerifC01Names (tags c11,c01): ALPN lists as given (WithSupportedProtocols), option sets c/s, "
+                                    "scripted network", "client_list": lc, "server_list": ls,
+                             "client_reports": c["client"].get("alpn"), "server_reports": c["server"].get("alpn"),
+                             "classes": [c["client"]["class"], c["server"]["class"]], "gen": c["gen"], "mask": c["mask"],
+                             "resume": c["resume"], "c": c11lib.slim_cfg(c["c"]), "s": c11lib.slim_cfg(c["s"])})
+        if lc != ls and {x.lower() for x in lc} & {x.lower() for x in ls}:
+            near.append(c)
+    chk.count("names-policy", len(cases), ["%s|%s|%s|%s" % (c["gen"], c["names_c"], c["names_s"], c["mask"]) for c in near],
+              samples=[{"gen": c["gen"], "client_list": c["names_c"], "server_list": c["names_s"],
+                        "alpn": [c["client"].get("alpn"), c["server"].get("alpn")],
+                        "classes": [c["client"]["class"], c["server"]["class"]]} for c in near[-2:]])
+    chk.leg_info("names-policy", sides_judged=judged,
+                 note="non-trivial = the two lists differ but share an entry up to ASCII case; predicate: a side that reports "
+                      "success with an ALPN protocol holds a byte string that is an entry of the client's AND of the server's list")
+    return found
 
 
 def replay(chk, path):
